@@ -900,9 +900,7 @@ class VectorExpression:
 
     def __rsub__(self, other: float | int) -> VectorExpression:
         # other - self
-        return VectorExpression(
-            [BinaryOp(_ensure_expr(other), expr, "-") for expr in self._expressions]
-        )
+        return _reflected_vector_op(self, other, "-")
 
     def __mul__(self, other: float | int) -> VectorExpression:
         """Scalar multiplication."""
@@ -917,9 +915,7 @@ class VectorExpression:
 
     def __rtruediv__(self, other: float | int) -> VectorExpression:
         """Right scalar division."""
-        return VectorExpression(
-            [BinaryOp(_ensure_expr(other), expr, "/") for expr in self._expressions]
-        )
+        return _reflected_vector_op(self, other, "/")
 
     def __neg__(self) -> VectorExpression:
         """Negate all elements."""
@@ -1234,9 +1230,7 @@ class VectorVariable:
 
     def __rsub__(self, other: float | int) -> VectorExpression:
         """Right subtraction: scalar - vector."""
-        return VectorExpression(
-            [BinaryOp(_ensure_expr(other), v, "-") for v in self._variables]
-        )
+        return _reflected_vector_op(self, other, "-")
 
     def __mul__(self, other: float | int) -> VectorExpression:
         """Scalar multiplication: x * 2."""
@@ -1252,9 +1246,7 @@ class VectorVariable:
 
     def __rtruediv__(self, other: float | int) -> VectorExpression:
         """Right scalar division: 1 / x."""
-        return VectorExpression(
-            [BinaryOp(_ensure_expr(other), v, "/") for v in self._variables]
-        )
+        return _reflected_vector_op(self, other, "/")
 
     def __neg__(self) -> VectorExpression:
         """Negate all elements: -x."""
@@ -1603,6 +1595,44 @@ def _vector_constraint(
         _make_constraint(left_expr, sense, right_expr)
         for left_expr, right_expr in zip(left_exprs, right_exprs)
     ]
+
+
+def _reflected_vector_op(
+    vector: VectorVariable | VectorExpression,
+    other: float | int | np.ndarray | list,
+    op: Literal["-", "/"],
+) -> VectorExpression:
+    """Element-wise ``other op vector`` for the non-commutative operators.
+
+    ``other`` is a scalar (broadcast) or a 1-D array / list of the same length
+    (paired element by element, like ``vector op other``).
+    """
+    if isinstance(vector, VectorVariable):
+        exprs: list[Expression] = list(vector._variables)
+    else:
+        exprs = list(vector._expressions)
+
+    if isinstance(other, list) or (isinstance(other, np.ndarray) and other.ndim > 0):
+        arr = np.asarray(other)
+        if arr.ndim != 1:
+            raise WrongDimensionalityError(
+                context=f"vector {op}",
+                expected_ndim=1,
+                got_ndim=arr.ndim,
+            )
+        if len(arr) != len(exprs):
+            raise DimensionMismatchError(
+                operation=f"vector {op}",
+                left_shape=len(arr),
+                right_shape=len(exprs),
+            )
+        lefts: list[Expression] = [Constant(val) for val in arr]
+    else:
+        lefts = [_ensure_expr(other)] * len(exprs)
+
+    return VectorExpression(
+        [BinaryOp(left, expr, op) for left, expr in zip(lefts, exprs)]
+    )
 
 
 def _vector_binary_op(
